@@ -169,7 +169,7 @@ func runCond(args []string) []string {
 	var out []string
 	collect := func(expect int) []int {
 		var got []int
-		deadline := time.After(700 * time.Millisecond)
+		deadline := time.After(6 * time.Second) // expected releases normally arrive within a millisecond; the margin is for a loaded machine
 		for len(got) < expect {
 			select {
 			case t := <-released:
@@ -216,7 +216,7 @@ func runCond(args []string) []string {
 			for _, c := range codes {
 				cl, cc := connect(y)
 				conns = append(conns, cc)
-				cc.SetDeadline(time.Now().Add(3 * time.Second))
+				cc.SetDeadline(time.Now().Add(15 * time.Second))
 				bw.Add(1)
 				go func(c int) {
 					defer bw.Done()
@@ -250,7 +250,7 @@ func runCond(args []string) []string {
 		if p[0] == "r" || p[0] == "R" {
 			cl, cc := connect(y)
 			conns = append(conns, cc)
-			cc.SetDeadline(time.Now().Add(3 * time.Second))
+			cc.SetDeadline(time.Now().Add(15 * time.Second))
 			if p[0] == "R" {
 				// a well-formed request with that code, one that takes effect (R:22 really locks the agent)
 				switch code {
